@@ -66,6 +66,12 @@ Theorem recovery_phase :
     /\ (2 <= n -> forall k, 0 <= k -> k * (2 * n) < n + 1 + k * (2 * n) < (k + 1) * (2 * n)).
 Proof. exact recovery_phase_lemma. Qed.
 
+(* glue: on a line carrying the ten frame levels for P = 2n clocks each, the recovered sample instants read exactly the frame levels *)
+Theorem sample_reads_level :
+  forall (n k : nat) (b : Z) (rest : list Z), (2 <= n)%nat -> (k < 10)%nat ->
+    nth_error (hold (repeat (2 * n)%nat 10) (frame8n1 b) ++ rest) (n + 1 + k * (2 * n)) = nth_error (frame8n1 b) k.
+Proof. exact sample_reads_level_lemma. Qed.
+
 (* composition of the whole link model (serializer -> clock generation and recovery -> deserializer), PARTIAL: by exhaustive
    evaluation for all 256 byte values and the half periods 2 <= n <= 10 (one byte) / 2 <= n <= 5 (two bytes back to back), from
    power-up with an always-ready consumer.  The composition for every n, every byte sequence and every gap is NOT proved (it is
@@ -129,6 +135,7 @@ Print Assumptions des_frame.
 Print Assumptions sw_receiver_8n1.
 Print Assumptions tx_pulse_train.
 Print Assumptions recovery_phase.
+Print Assumptions sample_reads_level.
 Print Assumptions link_delivers_partial.
 Print Assumptions des_all_pacings_refuted.
 Print Assumptions link_all_pacings_refuted.
